@@ -73,10 +73,16 @@ func (w *originWalker) walk(v ssa.Value, d int) {
 			return
 		}
 		cell := t.X
-		if fv, ok := cell.(*ssa.FreeVar); ok {
-			if b := BindingOf(fv); b != nil {
-				cell = b
+		for i := 0; i < 6; i++ {
+			fv, ok := cell.(*ssa.FreeVar)
+			if !ok {
+				break
 			}
+			b := BindingOf(fv)
+			if b == nil {
+				break
+			}
+			cell = b
 		}
 		switch c := cell.(type) {
 		case *ssa.Alloc:
